@@ -66,6 +66,21 @@ RECURSIVE CodeEnd(_, _)
 CodeEnd(t, i) == IF i > Len(t) THEN 0
                  ELSE IF At(t, i) = "}" /\ At(t, i + 1) = "]" THEN i + 2 ELSE CodeEnd(t, i + 1)
 
+\* does the decimal digit run t[i..j-1] denote a number <= the bound (a sequence of digits without leading zeros)?
+DigitSeq == <<"0", "1", "2", "3", "4", "5", "6", "7", "8", "9">>
+DigVal(c) == CHOOSE n \in 1..10 : DigitSeq[n] = c
+RECURSIVE SkipZeros(_, _, _)
+SkipZeros(t, i, j) == IF i < j - 1 /\ t[i] = "0" THEN SkipZeros(t, i + 1, j) ELSE i
+RECURSIVE LexLeq(_, _, _, _)
+LexLeq(t, i, bound, n) == IF n > Len(bound) THEN TRUE
+                          ELSE IF DigVal(t[i]) < DigVal(bound[n]) THEN TRUE
+                          ELSE IF DigVal(t[i]) > DigVal(bound[n]) THEN FALSE
+                          ELSE LexLeq(t, i + 1, bound, n + 1)
+FitsBound(t, i, j, bound) == LET s == SkipZeros(t, i, j) IN
+                             IF j - s < Len(bound) THEN TRUE ELSE IF j - s > Len(bound) THEN FALSE ELSE LexLeq(t, s, bound, 1)
+U64Max == <<"1","8","4","4","6","7","4","4","0","7","3","7","0","9","5","5","1","6","1","5">>
+I64MinAbs == <<"9","2","2","3","3","7","2","0","3","6","8","5","4","7","7","5","8","0","8">>
+
 Tok(k, s, e) == <<k, s, e>>
 \* one token starting at i (i <= Len(t)): <<kind, i, end>>
 Next1(t, i) ==
@@ -81,9 +96,8 @@ Next1(t, i) ==
        ELSE IF ~signed /\ c = "0" /\ d = "b" THEN (IF At(t, i + 2) \in {"0", "1"} THEN Tok(IF Run(t, i + 2, {"0", "1"}) - (i + 2) > 64 THEN "err" ELSE "binint", i, Run(t, i + 2, {"0", "1"})) ELSE Tok("err", i, i + 2))
        ELSE IF ~signed /\ At(t, j) \in IdStart THEN     \* digits followed by a letter: an identifier
             (LET e == Run(t, j, IdCont) w == Word(t, i, e) IN Tok(IF w \in Keyword THEN "kw:" \o w ELSE "id", i, e))
-       \* a literal that cannot fit 64 bits is an error token of the same extent (more than 20 decimal digits is certainly too long;
-       \* exactly 20 depends on the value and is not exercised beyond 2^64 - 1)
-       ELSE Tok(IF j - (IF signed THEN i + 1 ELSE i) > 20 THEN "err" ELSE "int", i, j)
+       \* a literal that cannot fit 64 bits (above 2^64 - 1, below -2^63) is an error token of the same extent
+       ELSE Tok(IF FitsBound(t, IF signed THEN i + 1 ELSE i, j, IF c = "-" THEN I64MinAbs ELSE U64Max) THEN "int" ELSE "err", i, j)
   ELSE IF c \in IdStart THEN
        (LET e == Run(t, i, IdCont) w == Word(t, i, e) IN Tok(IF w \in Keyword THEN "kw:" \o w ELSE "id", i, e))
   ELSE IF c = "\"" THEN (LET e == StrEnd(t, i + 1) IN IF e = 0 THEN Tok("err", i, ToEol(t, i)) ELSE Tok("str", i, e))
@@ -92,7 +106,8 @@ Next1(t, i) ==
   ELSE IF c = "!" THEN
        (LET e == Run(t, i + 1, IdCont) w == Word(t, i + 1, e) IN Tok(IF w \in BangOp THEN "bang:" \o w ELSE "err", i, e))
   ELSE IF c = "#" THEN
-       (LET e == Run(t, i + 1, Lower) w == Word(t, i + 1, e) IN IF w \in Directive THEN Tok("pp:" \o w, i, e) ELSE Tok("p:#", i, i + 1))
+       \* a directive only if the WHOLE word after "#" is one ("X#else_y" is a paste and an identifier, as for llvm-tblgen)
+       (LET e == Run(t, i + 1, IdCont) w == Word(t, i + 1, e) IN IF w \in Directive THEN Tok("pp:" \o w, i, e) ELSE Tok("p:#", i, i + 1))
   ELSE IF c = "." /\ d = "." /\ At(t, i + 2) = "." THEN Tok("p:...", i, i + 3)
   ELSE IF c \in Punct THEN Tok("p:" \o c, i, i + 1)
   ELSE Tok("err", i, i + 1)
